@@ -235,6 +235,15 @@ Nodes(c) ==
       [] c.t = "B" -> {c} \cup UNION {Nodes(c.ch[p]) : p \in DOMAIN c.ch}
       [] OTHER     -> {}
 
+\* number of nodes of a canonical trie (with multiplicity: equal subtrees at different places count each time)
+RECURSIVE NodeCount(_), SumOver(_, _)
+NodeCount(c) ==
+    CASE c.t = "L" -> 1
+      [] c.t = "E" -> 1 + NodeCount(c.c)
+      [] c.t = "B" -> 1 + SumOver(DOMAIN c.ch, c)
+      [] OTHER     -> 0
+SumOver(S, c) == IF S = {} THEN 0 ELSE LET p == CHOOSE x \in S : TRUE IN NodeCount(c.ch[p]) + SumOver(S \ {p}, c)
+
 \* the unique Patricia shape of a non-empty set S of <<hex key, value>> pairs (no key a prefix of another)
 CommonPrefix(S) ==
     LET e == CHOOSE x \in S : TRUE
